@@ -88,6 +88,11 @@ func (t *brokerPublishTransactionBase) resend(pktx interface{}) error {
 	t.log.Debug("Resend.")
 	switch pkt := pktx.(type) {
 	case snPkts.Packet:
+		// The packet is already queued for a sleeping client, do not queue
+		// it again.
+		if t.handler.state.Get() == util.StateAsleep {
+			return nil
+		}
 		// Set DUP if applicable.
 		if dupPkt, ok := pkt.(snPkts.PacketWithDUP); ok {
 			dupPkt.SetDUP(true)
